@@ -2,6 +2,7 @@
    bool/option/unit/list/prod map to OCaml's; N, positive, Z, nat stay Coq inductives. *)
 From Coq Require Import Extraction ExtrOcamlBasic.
 From Coq Require Import List NArith ZArith.
-From DuneV Require Import C03_Model C03_Spec.
+From DuneV Require Import C03_Params C03_Model C03_Spec.
 Extraction Language OCaml.
-Extraction "c03_model.ml" c03_init c03_run c03s_init c03_spec_run c03_defined.
+Extraction "c03_model.ml" c03_init c03_step c03_run c03s_init c03_spec_step c03_spec_run c03_defined
+  c03_at_c c03_get_c c03_lookup_size c03_add_default c03_param_legacy_probe_test.
